@@ -28,7 +28,7 @@ INT_AGGS = ("count", "sum", "min", "max")
 
 
 def examples(tier):
-    return 840 if tier == "quick" else 10000
+    return 4200 if tier == "quick" else 56000
 
 
 @st.composite
